@@ -11,6 +11,8 @@
 
 namespace vf {
 
+// the harness' OWN trailing-space trimmer (oracles must not depend on the library helper they judge)
+static inline void trimSpaces(std::string& s) { while (!s.empty() && s.back() == ' ') s.pop_back(); }
 static inline uint32_t fbits(float f) { uint32_t u; std::memcpy(&u, &f, 4); return u; }
 static inline float bitsf(uint32_t u) { float f; std::memcpy(&f, &u, 4); return f; }
 
